@@ -2,4 +2,7 @@
 
 
 def classify(w):
+    tail = w.get("what", "").split("] ", 1)[-1]
+    if "equality: returns a model that is == its argument but has a different hash" in tail:
+        return "model_eq_ignores_fields_that_hash_includes"
     return None
